@@ -21,6 +21,10 @@ RULE = (
     "compared with the model (unique->job, ambiguous->LookupError, none->KeyError). Non-trivial and distinct "
     "= distinct (state point text | id-set, op order) cases in which at least one init and one fresh lookup ran."
 )
+RULE += (
+    " " + "Added later: project handles made from a relative path followed by chdir; a deleted working directory; a workspace directory whose mtime lies behind the cache file's; init() again on the creating handle after the state point file went missing; the by-id answer of a new session after its caller changed the mapping."
+    " In every third case DEBUG logging is effective for the package."
+)
 ASSUMPTIONS = [
     "Unknown ids are well-formed lowercase hex strings (lengths 1..32) not matching any job; path-like strings are not generated.",
     "A 'new session' is a new Project object; a sample of cases uses a real new interpreter process.",
